@@ -251,6 +251,7 @@ class WorkQueue:
         self._channel: Queue[Any] = Queue()
         self._stopped = False
         self._pump_tasks: set[Task[None]] = set()
+        self._cleanup_tasks: set[Future[Any]] = set()
 
         new_groups, new_streams = self._maybe_integrate_work(initial_work)
         non_empty_initial_root_groups = self._prune_empty_groups(new_groups)
@@ -310,6 +311,7 @@ class WorkQueue:
         for pump_task in self._pump_tasks:
             pump_task.cancel()
         cancel_awaitables.extend(self._pump_tasks)
+        cancel_awaitables.extend(self._cleanup_tasks)
         if cancel_awaitables:
             await gather(*cancel_awaitables, return_exceptions=True)
 
@@ -683,11 +685,27 @@ class WorkQueue:
         del group_nodes[group]
         for task in list(group_node.tasks):
             if all(task_group not in group_nodes for task_group in task.groups):
+                self._abort_task(task)
                 self._remove_task(task)
         for child_group in group_node.child_groups:
             child_group_node = group_nodes.get(child_group)
             if child_group_node:
                 self._remove_group(child_group, child_group_node)
+
+    def _abort_task(self, task: WorkTask) -> None:
+        """Abort a task that no group is waiting for any more.
+
+        The task may still be running and may have produced streams; neither
+        would ever be delivered, so they are cancelled like in cancel(), with
+        the asynchronous part of the cleanup settled in the background.
+        """
+        cleanups: list[Awaitable[Any]] = []
+        self._cancel_task(task, None, cleanups)
+        cleanup_tasks = self._cleanup_tasks
+        for cleanup in cleanups:
+            cleanup_task = ensure_future(cleanup)
+            cleanup_tasks.add(cleanup_task)
+            cleanup_task.add_done_callback(cleanup_tasks.discard)
 
     def _remove_task(self, task: WorkTask) -> None:
         """Remove a task from all its groups and from the graph."""
